@@ -37,7 +37,8 @@ Fixpoint dec_digits (fuel : nat) (n : N) (acc : string) : string :=
   end.
 
 (* strconv.FormatUint(id, 10) *)
-Definition dec_str (z : Z) : string := dec_digits 30 (Z.to_N z) "".
+(* fuel: a number has at most log2 n + 1 decimal digits, so the digits never run out of fuel *)
+Definition dec_str (z : Z) : string := dec_digits (S (N.to_nat (N.log2 (Z.to_N z)))) (Z.to_N z) "".
 
 Definition join2 (a b : string) : string := (a ++ "/" ++ b)%string.
 Definition join3 (a b c : string) : string := (a ++ "/" ++ b ++ "/" ++ c)%string.
@@ -219,6 +220,8 @@ Definition keeper_update (e : env) (st : state) (addr : string) (p : params) : s
           let other := by_task_addr (s_avs st) (p_task p) in
           if negb (String.eqb other "") && negb (String.eqb other (a_addr a)) then (st, RErr)
           else if negb (assets_ok e (p_assets p)) then (st, RErr)
+          else if negb (String.eqb (p_epoch p) "") &&
+                  match epoch_cur st (p_epoch p) with Some _ => false | None => true end then (st, RErr)
           else
             let a' := mkAvs
               (if String.eqb (p_name p) "" then a_name a else p_name p)
@@ -273,7 +276,9 @@ Definition opt_in (e : env) (st : state) (addr caller operator : string) (self :
   else match sget (s_avs st) (addr_key addr) with
        | None => (st, RErr)
        | Some a =>
-           if opted_active st operator addr then (st, RErr)
+           (* IsAVS: only the spelling the AVS was registered with *)
+           if negb (String.eqb (a_addr a) addr) then (st, RErr)
+           else if opted_active st operator addr then (st, RErr)
            else match self with
                 | None => (st, RErr)
                 | Some v =>
@@ -288,8 +293,9 @@ Definition opt_out (e : env) (st : state) (addr caller operator : string) (froze
   else if negb (is_operator e operator) then (st, RErr)
   else match sget (s_avs st) (addr_key addr) with
        | None => (st, RErr)
-       | Some _ =>
-           if negb (opted_active st operator addr) then (st, RErr)
+       | Some a =>
+           if negb (String.eqb (a_addr a) addr) then (st, RErr)
+           else if negb (opted_active st operator addr) then (st, RErr)
            else if frozen then (st, RErr)
            else (with_opted st (sset (s_opted st) (join2 operator addr) false), ROk)
        end.
@@ -376,6 +382,8 @@ Definition submit (e : env) (st : state) (from : string) (from_valid : bool) (in
       else match sget (s_tasks st) (join2 (i_task i) (dec_str (i_id i))) with
       | None => (st, RErr)
       | Some t =>
+        (* only operators of the task's opt-in snapshot take part in the task *)
+        if negb (mem (i_op i) (t_optin t)) then (st, RErr) else
         match epoch_cur st (by_task_epoch (s_avs st) (i_task i)) with
         | None => (st, RErr)
         | Some cur =>
@@ -748,7 +756,8 @@ Definition mon_optin_step (e : env) (m : mstate) (s : stepobs) (after : state) :
   | OOptIn key addr _ operator self _, ROk =>
       (match assoc (s_avs before) key with
        | None => false
-       | Some a => match self with Some v => dec_of_int (a_min_self a) <=? v | None => false end
+       | Some a => String.eqb (a_addr a) addr &&
+                   match self with Some v => dec_of_int (a_min_self a) <=? v | None => false end
        end) &&
       mem operator (e_operators e) &&
       (match assoc (s_opted before) (join2 operator addr) with Some true => false | _ => true end) &&
@@ -773,6 +782,7 @@ Definition phase1_cond (e : env) (st : state) (from : string) (from_valid : bool
   common_cond e st from from_valid i pk_ok &&
   match assoc (s_tasks st) (join2 (i_task i) (dec_str (i_id i))), cur_of st (i_task i) with
   | Some t, Some cur =>
+      mem (i_op i) (t_optin t) &&                                                         (* in the opt-in snapshot *)
       (match assoc (s_res st) (res_key (i_op i) (i_task i) (i_id i)) with None => true | Some _ => false end) &&  (* only once *)
       negb (String.eqb (sig_bytes (i_sig i)) "") &&                                      (* a non-empty signature *)
       String.eqb (i_hash i) "" && resp_is_nil (i_resp i) &&
@@ -784,6 +794,7 @@ Definition phase2_cond (e : env) (st : state) (from : string) (from_valid : bool
   common_cond e st from from_valid i pk_ok &&
   match assoc (s_tasks st) (join2 (i_task i) (dec_str (i_id i))), cur_of st (i_task i) with
   | Some t, Some cur =>
+      mem (i_op i) (t_optin t) &&
       (match assoc (s_res st) (res_key (i_op i) (i_task i) (i_id i)) with
        | Some r => String.eqb (sig_bytes (r_sig r)) (sig_bytes (i_sig i))                   (* the phase-one signature *)
        | None => false
